@@ -30,3 +30,10 @@ Theorem C15_map_and_contramap_are_dimaps : forall post1 pre g arity,
   g_contramap pre g = GDimap pre g (EVar 2).
 Proof. intros. split; reflexivity. Qed.
 Print Assumptions C15_map_and_contramap_are_dimaps.
+
+(* ---- non-vacuity: concrete non-trivial programs and traces meeting the hypotheses above (proofs/GFIWitness.v) ---- *)
+From Proofs Require Import GFIWitness.
+Example C15_hypotheses_met : wfg ex_g /\ wft ex_g ex_t /\
+  exists t' w b, edit ex_g ex_k2 ex_t (RUpdate ex_c) ex_a' ex_tg = Ok (t', w, b) /\ t' <> ex_t /\ w <> 0.
+Proof. exact (conj ex_wfg (conj ex_wft ex_update_succeeds)). Qed.
+Print Assumptions C15_hypotheses_met.
